@@ -328,5 +328,6 @@ LEVEL_TEXT = ("Lean 4 theorems (daily/billing): the stored document of a sub-mod
 LEVEL_NOTE = ("Trusted: Lean kernel + standard axioms; json.dumps/loads round-trips doubles, NaN, +-Infinity, strings and None and turns "
               "integer keys into strings (assumption of the JSON model); the settings subtree and info are carried opaquely; hourly / "
               "CalTRACK restoration is checked on real fits only.")
-TECHNIQUE = "Lean 4 proof (document round trip by structural recursion; formula by C11 refinement) + differential correspondence + real-fit round-trip oracle"
+TECHNIQUE = ("Lean 4 proof (document round trip by structural recursion; formula by C11 refinement; fitted-state-is-restored over footprint tables "
+             "regenerated from the source on every run) + differential correspondence + real-fit round-trip oracle")
 ASSUMPTIONS = ["JSON round-trips IEEE doubles exactly (Python repr)", "hourly/CalTRACK numeric cores are external parameters (partial)"]
